@@ -243,6 +243,13 @@ func tokenBridgeDestroyUnexecutedSequenceContracts(
 	sequence uint64,
 	targetChainId vaa.ChainID,
 ) (*vaa.VAA, error) {
+	if req.EmitterChain > math.MaxUint16 {
+		return nil, errors.New("invalid emitter_chain")
+	}
+	if len(req.Sequences) > math.MaxUint16 {
+		return nil, fmt.Errorf("too many sequences - %d, maximum is %d", len(req.Sequences), math.MaxUint16)
+	}
+
 	v := vaa.CreateGovernanceVAA(governanceChainId, governanceEmitterAddress, timestamp, nonce, sequence, targetChainId, guardianSetIndex,
 		vaa.BodyTokenBridgeDestroyContracts{
 			EmitterChain: vaa.ChainID(req.EmitterChain),
